@@ -24,10 +24,14 @@ LEVEL_NOTE = ("Trusted: Lean kernel (standard axioms), hand model <-> fnpoints.p
               "n and m), qiskit x/cx/ccx/cu matrices (checked numerically each run), float arccos/sqrt/pi vs exact reals (compared "
               "to 1e-9), Python dict iteration order = insertion order.")
 LEAN_TARGETS = ["QclibModel.Props.C18"]
-THEOREMS = ["Qclib.C18_ladder", "Qclib.C18_telescope", "Qclib.C18_state_general", "Qclib.C18_state", "Qclib.C18_nprime"]
+THEOREMS = ["Qclib.C18_ladder", "Qclib.C18_telescope", "Qclib.C18_state_general", "Qclib.C18_state", "Qclib.C18_nprime",
+            "Qclib.C18_nprime_src"]
 TRUSTED = [
     "qiskit x/cx/ccx/cu matrices equal Mat2.X / smul (e^{i gamma}) (matU theta phi lambda) of Sem/Denote.lean (validated numerically each run)",
     "float: -2*arccos(sqrt(p/(p+1))) and -s*2*pi/N' are compared to the model's Float parameters to 1e-9",
+    "tools/py2lean.py: the N' statements of FnPointsInitialize.__init__ are re-translated from the source on every run "
+    "(Gen/FnNPrime.lean) and proved equal to the hand model fnNPrime for all arguments (C18_nprime_src); second tie: the "
+    "generated definition run by the driver vs the real constructor for every (max s, opt_params form, N) in a small box",
 ]
 ASSUMPTIONS = ["exact real/complex arithmetic in the theorem; implementation compared to 1e-7 (amplitudes) / 1e-9 (parameters)",
                "all qubits of the definition start in |0> (theorem: any state supported on x=g=c=0)",
@@ -36,6 +40,54 @@ RULE = ("tie: (n, ordered key list, s list, N) whose N' and flattened gate list 
         "the same kind of tuple whose full state vector (dense up to 11 qubits, sparse propagation of the real gate list above) "
         "was compared with the closed form incl. zeros elsewhere and g,c cleanliness; non-trivial = m>=2 with at least one "
         "non-zero output value")
+
+
+# ------------------------------------------------------------------------------------------------
+# source tie of the N' rule
+# ------------------------------------------------------------------------------------------------
+
+GEN_FILE_REL = "lean/QclibModel/Gen/FnNPrime.lean"
+GEN_SOURCE = "qclib/state_preparation/fnpoints.py"
+
+
+def generate(ctx):
+    """Re-translate the N' statements of FnPointsInitialize.__init__ from the current source (a refusal raises: broken obligation)
+    and re-check C18_nprime_src."""
+    import os
+    import framework
+    import py2lean
+    import srctie
+    py2lean.ensure_prelude(framework.LEAN)
+    blk = py2lean.translate_block(
+        os.path.join(framework.REPO, GEN_SOURCE), "FnPointsInitialize.__init__", "fn_n_prime", "Qclib.Gen.FnNPrime",
+        result="self.n_output_values", start=r"^default_n_output_values\b", stop=r"^if label is None",
+        views={"max(params.values())": "max_value", "opt_params is None": ("opt_none", "Bool"),
+               "opt_params.get('n_output_values')": ("opt_n", "OptInt")}, relpath=GEN_SOURCE)
+    text = py2lean.write_module(os.path.join(framework.VERIF, GEN_FILE_REL), [blk],
+                                [GEN_SOURCE + " :: FnPointsInitialize.__init__ (default_n_output_values .. self.n_output_values)"])
+    srctie.verify(ctx, "QclibModel.Props.C18", ["Qclib.C18_nprime_src"])
+    return {"file": GEN_FILE_REL, "bytes": len(text), "translated": ["FnPointsInitialize.__init__: self.n_output_values"]}
+
+
+def gen_nprime_tie(ctx):
+    """Second tie of the translation: generated N' rule (run by the driver) against the REAL constructor, for every maximum
+    output -2..6, every opt_params form and every requested value -2..8.  (The constructor does not build the circuit, so
+    N' = 0 is observable here.)"""
+    from qclib.state_preparation.fnpoints import FnPointsInitialize
+    for mx in range(-2, 7):
+        params = {"00": mx - 3, "01": mx, "10": mx - 1}
+        forms = [("none", None), ("empty", {}), ("none-key", {"n_output_values": None})]
+        forms += [(f"N={N}", {"n_output_values": N}) for N in range(-2, 9)]
+        for tag, opt in forms:
+            try:
+                lines = [f"nprime {int(FnPointsInitialize(params, opt_params=opt).n_output_values)} ;"]
+            except Exception as e:
+                lines = [f"raised {type(e).__name__} ;"]
+            has = opt is not None and opt.get("n_output_values") is not None
+            ctx.tie({"op": "gen_nprime", "max": mx, "opt_none": opt is None, "hasN": bool(has),
+                     "N": int(opt["n_output_values"]) if has else 0}, lines, label=f"translated N' rule max={mx} opt={tag}",
+                    compare=lambda op, impl, model: None if impl == model else f"impl={impl!r} generated={model!r}")
+            ctx.count("gen-nprime")
 
 
 # ------------------------------------------------------------------------------------------------
@@ -427,6 +479,8 @@ def boundary_cases(ctx):
 
 def run(ctx, tie_nmax=None, or_nmax=None, sparse_nmax=None):
     gate_conventions(ctx)
+    if tie_nmax is None:
+        gen_nprime_tie(ctx)
     boundary_cases(ctx)
     r = ctx.rng
     quick = ctx.quick
